@@ -10,5 +10,6 @@ CONSTANTS
   SerialReg = FALSE
   MaxBatch = 2
   RetryEnds = TRUE
-  Depth = 36
+  MaxAck = 2
+  Depth = 38
 CHECK_DEADLOCK FALSE
